@@ -1682,3 +1682,44 @@ def r2_10(rep):
                     extra.append(("" if pl else "!") + src[:60])
         rep.check(not extra, "unit-gap-conditions", "padding is emitted for every non-union record whose run starts beyond the running offset" if not extra else
                   "the padding is additionally conditioned on %s: the unit of such a record is placed too early" % ", ".join(extra), b.loc(s_))
+
+
+@RULES.rule("R2.11", "an explicit padding field neither rounds its size up nor moves: its alignment divides its size and its start", floor=1)
+def r2_11(rep):
+    """A padding field is a blob of `padding_bytes` bytes that has to begin exactly where the previous member ended.  Giving it an
+    alignment that does not divide both numbers makes Rust round the blob's size up and move it to the next multiple: for
+    `struct { char c; long double ld; }` (c at 0, ld at 16) the 15-byte padding of alignment 8 becomes 16 bytes at offset 8, `ld`
+    lands at 32 and the generated offset assertion does not compile."""
+    prog = rep.prog
+    b = rep.need(next((x for p, x in prog.bodies.items() if p.endswith("::saw_field_with_layout") and "StructLayoutTracker" in p), None),
+                 "StructLayoutTracker::saw_field_with_layout")
+    news = [c for c in b.calls(lambda n: n["k"] == "Call" and callee_of(n).endswith("Layout::new"))]
+    rep.need(news, "the padding `Layout::new(padding_bytes, <align>)` in saw_field_with_layout")
+    for c in news:
+        al = c["args"][1]
+        leaves_ = []
+
+        def leaves_of(e, depth=0, at=None):
+            """(value, node whose guards describe when that value is chosen)"""
+            e = strip(e)
+            if e.get("k") == "If" and "else" in e:
+                return leaves_of(e["then"], depth + 1) + leaves_of(e["else"], depth + 1)
+            if e.get("k") == "Block" and e.get("tail") is not None:
+                return leaves_of(e["tail"], depth + 1, at)
+            if e.get("k") == "Local" and b.local_init(e["id"]) is not None and depth < 6:
+                init = strip(b.local_init(e["id"]))
+                if init.get("k") in ("If", "Block", "Local"):
+                    return leaves_of(init, depth + 1, at or (e if at is None and any(g[1] == "cond" for g in b.guards(e)) else None))
+            return [(e, at or e)]
+        bad = []
+        for lf, where_ in leaves_of(al):
+            if lf.get("k") == "Lit" and lf.get("v") == 1:
+                continue
+            # a larger alignment is fine when the path to it tests that it divides the size and the start offset
+            tests = " ".join(b.canon(g, 6) for pol, kind, g in b.guards(where_) if kind == "cond" and pol)
+            div = tests.count("%") >= 2 or ("is_multiple_of" in tests and tests.count("is_multiple_of") >= 2)
+            if not div:
+                bad.append(lf)
+        rep.check(not bad, "padding-align-divides-size-and-start", "the padding's alignment is 1, or tested to divide its size and its start offset" if not bad else
+                  "the padding blob gets alignment `%s` without checking that it divides the padding size and the offset the padding starts at"
+                  % b.canon(bad[0], 3)[:60], b.loc(c))
